@@ -601,7 +601,7 @@ pub mod checks {
         });
         let mut rejected = 0u64;
         for (p, r) in parts { rep.merge(p); rejected += r; }
-        if name == "text_cmp" && only.is_none() {
+        if name == "text_cmp" && only.map_or(true, |o| o.0 >= 9_000_000) {
           // number literals beyond the range of a double (`1e999` parses to an infinite f64): such a literal is greater (less) than every number and
           // equal to none, and it is not null; a parser that rejects it as out of range is equally fine.  Never: a non-number selected by `==`.
           let d = json!([null, 0, 1.5, "a", true, [], {}, 1e308, -1e308, {"a": null}, {"a": 1}]);
@@ -614,6 +614,7 @@ pub mod checks {
               ("$[?@ == 123456789012345678901234567890e999]", Box::new(|_v: &Value| false)), ("$[?@ < -1.0e999]", Box::new(|_v: &Value| false)),
           ];
           for (ti, (t, want)) in cases.iter().enumerate() {
+              if let Some((a, _)) = only { if a != 9_000_000 + ti { continue; } }
               rep.evaluations += 1; rep.nontrivial += 1;
               let w = |extra: Value| json!({"text": t, "doc": d, "qi": 9_000_000 + ti, "di": 0, "detail": extra});
               match catch_unwind(AssertUnwindSafe(|| js_path(t, &d))) {
@@ -816,8 +817,8 @@ pub mod checks {
             } }
         }
         // pass 6: the entry points agree on every text, also on texts that are REJECTED (blank space around the expression, garbage): all
-        // of js_path / query / query_only_path / query_with_path accept, or all reject
-        if only.is_none() {
+        // of js_path / query / query_only_path / query_with_path accept, or all reject   (cheap: also run when one pair is replayed)
+        {
             use crate::JsonPath;
             let d = json!({"a": {"b": [1, 2]}, "k": [0, 1, 2]});
             let mut ts: Vec<String> = texts.iter().filter(|_| true).cloned().collect();
@@ -833,7 +834,7 @@ pub mod checks {
         }
         // pass 7: LARGE results concurrently (a budget, counter or buffer shared between evaluations shows only when their combined size is large):
         // 8 threads each evaluate `$..*` and `$[*][*]` on a 400 x 400 table (160 400 nodes), results compared with the sequential ones
-        if only.is_none() {
+        {
             let table = Value::Array((0..400).map(|i| Value::Array((0..400).map(|j| json!(i * 400 + j)).collect())).collect());
             let seq: Vec<Res> = ["$..*", "$[*][*]"].iter().map(|t| run_text(t, &table).map(|v| vec![(v.len(), String::new())])).collect();
             let res: Vec<Vec<Res>> = std::thread::scope(|sc| {
